@@ -144,6 +144,13 @@ pub fn c08(ctx: &Ctx, subj: &dyn DynSubject, ty: &Ty, rep: &mut Report) {
                 }
             }
         }
+        // an in-memory structure encased without a backend behaves like a loaded one
+        log.extra_evals += 1;
+        match guard(|| subj.encase(v)) {
+            Ok(Ok(())) => {}
+            Ok(Err(e)) => return Err(Fail::new("encase-mismatch", e)),
+            Err(p) => return Err(Fail::new(&format!("encase-panic:{}", panic_class(&p)), format!("MemCase::encase panicked: {}", p))),
+        }
         // load_full reads sequentially: the same bytes arriving through a named pipe, in fragments, give the same value
         if ent.pick(6) == 0 && !file.is_empty() {
             use std::os::unix::ffi::OsStrExt;
